@@ -73,8 +73,26 @@ def gen_cyclic(rng, kind):
     for i in range(1, n): asgs.append(((x.idx, x.off + i * w, w), fn1(rng, w, R(ys[i - 1]))))
     if rng.random() < 0.5: asgs.reverse()
     blk(asgs)
-    for i in range(n - 1): blk([((ys[i].idx, 0, w), fn1(rng, w, R(x, x.off + i * w, w)))])
-    blk([((out.idx, 0, w), ('b', 'xor', w, R(x, x.off + (n - 1) * w, w), R(i1)))])
+    # optionally the read of x that closes the loop is made inside an `@s.func` helper that another, earlier defined block
+    # calls as well (the reads of a helper belong to EVERY block that calls it)
+    via_helper = rng.random() < 0.35
+    if via_helper:
+      he = fn1(rng, w, R(x, x.off, w))
+      if he[0] == 'r': he = ('n', w, he)
+      d.helpers.append(('hf0', he, w))
+      def call():
+        e = (he[0],) + he[1:]
+        d.fn_call[id(e)] = (e, 'hf0')
+        return e
+      z = d.new_sig('', 'z', w, 'wire')
+      for _ in range(rng.randint(1, 2)):        # earlier callers of the same helper
+        blk([((z.idx, 0, w), ('b', 'xor', w, call(), R(i1)))] if _ == 0 else [((out.idx, 0, w), ('b', 'xor', w, call(), R(x, x.off + (n - 1) * w, w)))])
+      d.via_helper = True
+    nout = sum(1 for b_ in d.blocks for (t, _e) in b_['asgs'] if t[0] == out.idx)
+    for i in range(n - 1):
+      src_ = call() if (via_helper and i == 0) else fn1(rng, w, R(x, x.off + i * w, w))
+      blk([((ys[i].idx, 0, w), src_)])
+    if not nout: blk([((out.idx, 0, w), ('b', 'xor', w, R(x, x.off + (n - 1) * w, w), R(i1)))])
     expect = 'value'
   elif kind == 'conv':
     a = d.new_sig('', 'a', w, 'wire'); b = d.new_sig('', 'b', w, 'wire')
